@@ -42,35 +42,93 @@ Qed.
 Lemma render_some : forall c v r, render c v = Some r -> to_render_values c v = Some r.
 Proof. intros c v r H. unfold render in H. destruct (pd_ok c v); [assumption | discriminate]. Qed.
 
-(* C13_config_spec *)
-Theorem upgrade_config_spec : forall h f c vals r,
-  step h (OUpgrade f c vals) = Some r ->
-  exists cur, current h = Some cur /\ rconfig r = config_spec f vals (rconfig cur).
+(* ---- which revision values are carried forward from ---- *)
+Lemma deployed_idx_from_spec : forall sts n i,
+  deployed_idx_from n sts = Some i ->
+  n <= i < n + List.length sts
+  /\ nth_error sts (i - n) = Some SDeployed
+  /\ (forall j, i < j -> j < n + List.length sts -> nth_error sts (j - n) <> Some SDeployed).
 Proof.
-  intros h f c vals r H. simpl in H.
-  destruct (current h) as [cur|]; [|discriminate].
-  destruct (reuse_values_fn f c cur vals) as [[c' vals']|] eqn:E; [|discriminate].
-  destruct (render c' vals'); [|discriminate].
-  inversion H; subst. simpl.
-  apply reuse_values_fn_spec in E. destruct E as [-> _].
-  eauto.
+  induction sts as [|st t IH]; intros n i H; simpl in H; [discriminate|].
+  destruct (deployed_idx_from (S n) t) as [i'|] eqn:D.
+  - inversion H; subst i'. destruct (IH _ _ D) as (R & N & M). simpl List.length.
+    split; [lia|]. split.
+    + replace (i - n) with (S (i - S n)) by lia. exact N.
+    + intros j Hj Hl. replace (j - n) with (S (j - S n)) by lia. apply M; lia.
+  - destruct (rstat_eqb st SDeployed) eqn:E; [|discriminate]. inversion H; subst i.
+    destruct st; try discriminate. simpl List.length. split; [lia|]. split.
+    + now rewrite Nat.sub_diag.
+    + intros j Hj Hl. replace (j - n) with (S (j - S n)) by lia. simpl.
+      clear -D Hj Hl. revert n j D Hj Hl. induction t as [|s t IHt]; intros n j D Hj Hl.
+      * destruct (j - S n); discriminate.
+      * simpl in D. destruct (deployed_idx_from (S (S n)) t) eqn:D2; [discriminate|].
+        destruct (rstat_eqb s SDeployed) eqn:E; [discriminate|].
+        destruct (j - S n) eqn:J.
+        -- simpl. intros X. inversion X; subst s. discriminate.
+        -- simpl. simpl in Hl. specialize (IHt (S n) j D2). replace (j - S (S n)) with n0 in IHt by lia. apply IHt; lia.
 Qed.
 
-(* C13_defaults_spec *)
-Theorem upgrade_defaults_spec : forall h f c vals r,
-  step h (OUpgrade f c vals) = Some r ->
-  exists cur d, current h = Some cur
-    /\ defaults_spec f c cur = Some d
-    /\ rchart r = set_values c d
-    /\ to_render_values (set_values c d) (rconfig r) = Some (rrendered r).
+Lemma deployed_idx_from_none : forall sts n,
+  deployed_idx_from n sts = None -> forall j, nth_error sts j <> Some SDeployed.
 Proof.
-  intros h f c vals r H. simpl in H.
-  destruct (current h) as [cur|]; [|discriminate].
+  induction sts as [|st t IH]; intros n H j; [destruct j; discriminate|].
+  simpl in H. destruct (deployed_idx_from (S n) t) eqn:D; [discriminate|].
+  destruct (rstat_eqb st SDeployed) eqn:E; [discriminate|].
+  destruct j; simpl; [intros X; inversion X; subst; discriminate | eapply IH; eauto].
+Qed.
+
+(* prepareUpgrade's currentRelease: the newest DEPLOYED revision when there is one, else the
+   newest revision *)
+Theorem current_idx_spec : forall sts n,
+  current_idx sts = Some n ->
+  1 <= n <= List.length sts
+  /\ ((nth_error sts (n - 1) = Some SDeployed
+       /\ forall j, n <= j -> j < List.length sts -> nth_error sts j <> Some SDeployed)
+      \/ (n = List.length sts /\ forall j, nth_error sts j <> Some SDeployed)).
+Proof.
+  intros sts n H. unfold current_idx in H. destruct sts as [|s0 t0] eqn:ES; [discriminate|]. rewrite <- ES in *.
+  assert (Hlen : 1 <= List.length sts) by (rewrite ES; simpl; lia).
+  destruct (nth_error sts (List.length sts - 1)) as [st|] eqn:NL.
+  - destruct st.
+    + inversion H; subst n. split; [lia|]. left. split; [assumption|]. intros j Hj Hl. lia.
+    + destruct (deployed_idx_from 1 sts) as [i|] eqn:D.
+      * inversion H; subst i. destruct (deployed_idx_from_spec _ _ _ D) as (R & N & M). split; [lia|]. left.
+        split; [assumption|]. intros j Hj Hl. specialize (M (S j)). replace (S j - 1) with j in M by lia. apply M; lia.
+      * inversion H; subst n. split; [lia|]. right. split; [reflexivity|]. eapply deployed_idx_from_none; eauto.
+    + destruct (deployed_idx_from 1 sts) as [i|] eqn:D.
+      * inversion H; subst i. destruct (deployed_idx_from_spec _ _ _ D) as (R & N & M). split; [lia|]. left.
+        split; [assumption|]. intros j Hj Hl. specialize (M (S j)). replace (S j - 1) with j in M by lia. apply M; lia.
+      * inversion H; subst n. split; [lia|]. right. split; [reflexivity|]. eapply deployed_idx_from_none; eauto.
+  - apply nth_error_None in NL. lia.
+Qed.
+
+Lemma current_get : forall h n cur, current h = Some (n, cur) -> get_rev h n = Some cur /\ current_idx (map rstatus h) = Some n.
+Proof.
+  intros h n cur H. unfold current in H. destruct (current_idx (map rstatus h)) as [m|]; [|discriminate].
+  destruct (get_rev h m) eqn:G; [|discriminate]. inversion H; subst. auto.
+Qed.
+
+Definition fail_status (fails : bool) : rstat := if fails then SFailed else SDeployed.
+
+(* C13_config_spec / C13_defaults_spec: what an upgrade stores *)
+Theorem upgrade_stores : forall h f c vals fails h' ok,
+  step h (OUpgrade f c vals fails) = Some (h', ok) ->
+  exists n cur d r,
+    current h = Some (n, cur)
+    /\ defaults_spec f c cur = Some d
+    /\ h' = ((if fails then h else supersede_at n h) ++ [r])%list
+    /\ rconfig r = config_spec f vals (rconfig cur)
+    /\ rchart r = set_values c d
+    /\ to_render_values (set_values c d) (rconfig r) = Some (rrendered r)
+    /\ rstatus r = fail_status fails
+    /\ ok = negb fails.
+Proof.
+  intros h f c vals fails h' ok H. simpl in H.
+  destruct (current h) as [[n cur]|]; [|discriminate].
   destruct (reuse_values_fn f c cur vals) as [[c' vals']|] eqn:E; [|discriminate].
-  destruct (render c' vals') eqn:T; [|discriminate]. apply render_some in T.
-  inversion H; subst. simpl.
-  apply reuse_values_fn_spec in E. destruct E as [_ (d & Hd & ->)].
-  exists cur, d. auto.
+  destruct (render c' vals') as [rv|] eqn:T; [|discriminate]. apply render_some in T.
+  apply reuse_values_fn_spec in E. destruct E as [-> (d & Hd & ->)].
+  destruct fails; inversion H; subst; eexists n, cur, d, _; repeat split; try reflexivity; assumption.
 Qed.
 
 (* every stored revision re-renders to what its templates saw *)
@@ -79,109 +137,193 @@ Definition consistent (r : revision) : Prop := to_render_values (rchart r) (rcon
 Lemma get_rev_in : forall h n r, get_rev h n = Some r -> In r h.
 Proof. intros h [|i] r H; simpl in H; [discriminate|]. eapply nth_error_In; eauto. Qed.
 
-Lemma step_consistent : forall h o r,
-  Forall consistent h -> step h o = Some r -> consistent r.
+Lemma consistent_set_status : forall st r, consistent r -> consistent (set_status st r).
+Proof. intros st r H. exact H. Qed.
+
+Lemma consistent_supersede_at : forall n h, Forall consistent h -> Forall consistent (supersede_at n h).
 Proof.
-  intros h o r Hh H. destruct o as [c vals|f c vals|v]; simpl in H.
-  - destruct h; [|discriminate]. destruct (render c vals) eqn:T; [|discriminate]. apply render_some in T.
-    inversion H; subst. exact T.
-  - destruct (current h) as [cur|]; [|discriminate].
-    destruct (reuse_values_fn f c cur vals) as [[c' vals']|]; [|discriminate].
-    destruct (render c' vals') eqn:T; [|discriminate]. apply render_some in T.
-    inversion H; subst. exact T.
-  - destruct (current h); [|discriminate].
-    destruct (get_rev h _) as [t|] eqn:G; [|discriminate].
-    inversion H; subst. unfold consistent. simpl.
-    apply get_rev_in in G. rewrite Forall_forall in Hh. exact (Hh _ G).
+  intros n h. revert n. induction h as [|r t IH]; intros n H.
+  - destruct n as [|[|n'']]; simpl; constructor.
+  - inversion H; subst. destruct n as [|[|n'']].
+    + assumption.
+    + simpl. constructor; assumption.
+    + change (supersede_at (S (S n'')) (r :: t)) with (r :: supersede_at (S n'') t).
+      constructor; [assumption | apply IH; assumption].
 Qed.
 
-(* with reuse-values the defaults in force are exactly what the deployed revision's templates saw *)
-Corollary reuse_defaults_are_deployed_values : forall h f c vals r,
-  Forall consistent h ->
-  step h (OUpgrade f c vals) = Some r ->
-  keeps_old_defaults f = true ->
-  exists cur, current h = Some cur /\ rchart r = set_values c (rrendered cur).
+Lemma consistent_supersede_deployed : forall h, Forall consistent h -> Forall consistent (supersede_deployed h).
 Proof.
-  intros h f c vals r Hh H K.
-  destruct (upgrade_defaults_spec _ _ _ _ _ H) as (cur & d & Hc & Hd & Hr & _).
-  exists cur. split; [assumption|].
-  unfold defaults_spec in Hd. rewrite K in Hd.
-  assert (Hin : In cur h).
-  { unfold current in Hc. eapply get_rev_in; eauto. }
-  rewrite Forall_forall in Hh. specialize (Hh _ Hin). unfold consistent, to_render_values in Hh.
-  rewrite Hh in Hd. inversion Hd; subst. assumption.
+  induction h as [|r t IH]; intros H; [constructor|]. inversion H; subst. simpl.
+  constructor; [destruct (rstat_eqb (rstatus r) SDeployed); assumption | now apply IH].
+Qed.
+
+Lemma step_consistent : forall h o h' ok,
+  Forall consistent h -> step h o = Some (h', ok) -> Forall consistent h'.
+Proof.
+  intros h o h' ok Hh H. destruct o as [c vals fails|f c vals fails|v fails].
+  - simpl in H. destruct h; [|discriminate]. destruct (render c vals) eqn:T; [|discriminate]. apply render_some in T.
+    inversion H; subst. constructor; [exact T | constructor].
+  - destruct (upgrade_stores _ _ _ _ _ _ _ H) as (n & cur & d & r & _ & _ & -> & Hc & Hch & Hr & _ & _).
+    apply Forall_app. split.
+    + destruct fails; [assumption | now apply consistent_supersede_at].
+    + constructor; [|constructor]. unfold consistent. rewrite Hch. exact Hr.
+  - simpl in H. destruct (last_rev h); [|discriminate].
+    destruct (get_rev h _) as [t|] eqn:G; [|discriminate].
+    assert (Ct : consistent t) by (apply get_rev_in in G; rewrite Forall_forall in Hh; exact (Hh _ G)).
+    destruct fails; inversion H; subst; apply Forall_app; split;
+      try assumption; try (now apply consistent_supersede_deployed); (constructor; [exact Ct | constructor]).
+Qed.
+
+(* with reuse-values the defaults in force are exactly what the templates of the revision the
+   values are carried forward from saw *)
+Corollary reuse_defaults_are_deployed_values : forall h f c vals fails h' ok,
+  Forall consistent h ->
+  step h (OUpgrade f c vals fails) = Some (h', ok) ->
+  keeps_old_defaults f = true ->
+  exists n cur r, current h = Some (n, cur) /\ last_rev h' = Some r /\ rchart r = set_values c (rrendered cur).
+Proof.
+  intros h f c vals fails h' ok Hh H K.
+  destruct (upgrade_stores _ _ _ _ _ _ _ H) as (n & cur & d & r & Hc & Hd & -> & _ & Hch & _).
+  exists n, cur, r. split; [assumption|]. split.
+  - unfold last_rev, get_rev. rewrite app_length. simpl. replace (List.length (if fails then h else supersede_at n h) + 1) with (S (List.length (if fails then h else supersede_at n h))) by lia.
+    rewrite nth_error_app2 by lia. now rewrite Nat.sub_diag.
+  - unfold defaults_spec in Hd. rewrite K in Hd.
+    destruct (current_get _ _ _ Hc) as [G _]. apply get_rev_in in G.
+    rewrite Forall_forall in Hh. specialize (Hh _ G). unfold consistent, to_render_values in Hh.
+    rewrite Hh in Hd. inversion Hd; subst. assumption.
 Qed.
 
 (* C13_rollback_config *)
-Theorem rollback_spec : forall h v r,
-  step h (ORollback v) = Some r ->
-  exists t, get_rev h (match v with O => List.length h - 1 | _ => v end) = Some t
-            /\ rconfig r = rconfig t /\ rchart r = rchart t /\ rrendered r = rrendered t.
+Theorem rollback_stores : forall h v fails h' ok,
+  step h (ORollback v fails) = Some (h', ok) ->
+  exists t r, get_rev h (match v with O => List.length h - 1 | _ => v end) = Some t
+    /\ h' = ((if fails then h else supersede_deployed h) ++ [r])%list
+    /\ rconfig r = rconfig t /\ rchart r = rchart t /\ rrendered r = rrendered t
+    /\ rstatus r = fail_status fails /\ ok = negb fails.
 Proof.
-  intros h v r H. simpl in H. destruct (current h); [|discriminate].
-  destruct (get_rev h _) as [t|] eqn:E; [|discriminate]. inversion H; subst. exists t. auto.
+  intros h v fails h' ok H. simpl in H. destruct (last_rev h); [|discriminate].
+  destruct (get_rev h _) as [t|] eqn:E; [|discriminate].
+  destruct fails; inversion H; subst; eexists t, _; repeat split; reflexivity.
 Qed.
 
 (* ---- chains ---- *)
+(* the ledger: recorded values and status of every revision *)
+Definition ledger := list (vmap * rstat).
+Definition ledger_of (h : history) : ledger := map (fun r => (rconfig r, rstatus r)) h.
 
-(* the per-step specification on recorded values alone: given the configs recorded so far and
-   whether the operation succeeded, the configs afterwards *)
-Definition nth_config (cs : list vmap) (n : nat) : option vmap :=
-  match n with O => None | S i => nth_error cs i end.
+Definition l_supersede_at (n : nat) (l : ledger) : ledger :=
+  (fix go (n : nat) (l : ledger) : ledger :=
+     match n, l with
+     | _, [] => []
+     | O, _ => l
+     | S O, (c, _) :: t => (c, SSuperseded) :: t
+     | S n', x :: t => x :: go n' t
+     end) n l.
 
-Definition spec_step (cs : list vmap) (o : op) : option vmap :=
+Definition l_supersede_deployed (l : ledger) : ledger :=
+  map (fun x => if rstat_eqb (snd x) SDeployed then (fst x, SSuperseded) else x) l.
+
+Definition l_get (l : ledger) (n : nat) : option (vmap * rstat) := match n with O => None | S i => nth_error l i end.
+
+(* the per-step specification on the ledger alone, for an operation that stored something *)
+Definition spec_step (l : ledger) (o : op) : option ledger :=
   match o with
-  | OInstall _ vals => match cs with [] => Some vals | _ => None end
-  | OUpgrade f _ vals =>
-      match nth_config cs (List.length cs) with
-      | Some cur => Some (config_spec f vals cur)
+  | OInstall _ vals fails => match l with [] => Some [(vals, fail_status fails)] | _ => None end
+  | OUpgrade f _ vals fails =>
+      match current_idx (map snd l) with
+      | Some n =>
+          match l_get l n with
+          | Some (cur, _) =>
+              Some ((if fails then l else l_supersede_at n l) ++ [(config_spec f vals cur, fail_status fails)])%list
+          | None => None
+          end
       | None => None
       end
-  | ORollback v => nth_config cs (match v with O => List.length cs - 1 | _ => v end)
-  end.
-
-Fixpoint spec_chain (cs : list vmap) (ops : list op) (oks : list bool) : list vmap :=
-  match ops, oks with
-  | o :: ops', true :: oks' =>
-      match spec_step cs o with
-      | Some c => spec_chain (cs ++ [c])%list ops' oks'
-      | None => cs                                      (* excluded by [chain_spec]: a successful step has a spec *)
+  | ORollback v fails =>
+      match l_get l (match v with O => List.length l - 1 | _ => v end) with
+      | Some (cfg, _) => Some ((if fails then l else l_supersede_deployed l) ++ [(cfg, fail_status fails)])%list
+      | None => None
       end
-  | _ :: ops', false :: oks' => spec_chain cs ops' oks'
-  | _, _ => cs
   end.
 
-Lemma nth_config_map : forall h n,
-  nth_config (map rconfig h) n = option_map rconfig (get_rev h n).
+(* which operations stored a revision *)
+Fixpoint stored_flags (h : history) (ops : list op) : list bool :=
+  match ops with
+  | [] => []
+  | o :: t =>
+      match step h o with
+      | Some (h1, _) => true :: stored_flags h1 t
+      | None => false :: stored_flags h t
+      end
+  end.
+
+Fixpoint spec_chain (l : ledger) (ops : list op) (stored : list bool) : ledger :=
+  match ops, stored with
+  | o :: ops', true :: st' =>
+      match spec_step l o with
+      | Some l' => spec_chain l' ops' st'
+      | None => l                                      (* excluded by [chain_spec] *)
+      end
+  | _ :: ops', false :: st' => spec_chain l ops' st'
+  | _, _ => l
+  end.
+
+Lemma ledger_statuses : forall h, map snd (ledger_of h) = map rstatus h.
+Proof. intros. unfold ledger_of. rewrite map_map. reflexivity. Qed.
+
+Lemma ledger_get : forall h n, l_get (ledger_of h) n = option_map (fun r => (rconfig r, rstatus r)) (get_rev h n).
+Proof. intros h [|i]; simpl; [reflexivity|]. unfold ledger_of. apply nth_error_map. Qed.
+
+Lemma ledger_supersede_at : forall n h, ledger_of (supersede_at n h) = l_supersede_at n (ledger_of h).
 Proof.
-  intros h [|i]; simpl; [reflexivity|].
-  revert h. induction i; intros [|r t]; simpl; auto.
+  intros n h. revert n. induction h as [|r t IH]; intros [|[|n'']]; try reflexivity.
+  change (supersede_at (S (S n'')) (r :: t)) with (r :: supersede_at (S n'') t).
+  change (ledger_of (r :: supersede_at (S n'') t)) with ((rconfig r, rstatus r) :: ledger_of (supersede_at (S n'') t)).
+  change (l_supersede_at (S (S n'')) (ledger_of (r :: t))) with ((rconfig r, rstatus r) :: l_supersede_at (S n'') (ledger_of t)).
+  f_equal. apply IH.
 Qed.
 
-Lemma step_spec_step : forall h o r,
-  step h o = Some r -> spec_step (map rconfig h) o = Some (rconfig r).
+Lemma ledger_supersede_deployed : forall h, ledger_of (supersede_deployed h) = l_supersede_deployed (ledger_of h).
 Proof.
-  intros h o r H. destruct o as [c vals|f c vals|v].
-  - simpl in *. destruct h; [|discriminate]. destruct (render c vals); [|discriminate].
-    inversion H; subst. reflexivity.
-  - destruct (upgrade_config_spec _ _ _ _ _ H) as (cur & Hc & Hr).
-    simpl. rewrite map_length, nth_config_map. unfold current in Hc. rewrite Hc. simpl. now rewrite Hr.
-  - destruct (rollback_spec _ _ _ H) as (t & Ht & Hr & _).
-    simpl. rewrite map_length, nth_config_map, Ht. simpl. now rewrite Hr.
+  induction h as [|r t IH]; simpl; [reflexivity|]. f_equal; [|exact IH].
+  destruct (rstat_eqb (rstatus r) SDeployed); reflexivity.
+Qed.
+
+Lemma ledger_length : forall h, List.length (ledger_of h) = List.length h.
+Proof. intros. apply map_length. Qed.
+
+Lemma ledger_app : forall a b, ledger_of (a ++ b) = (ledger_of a ++ ledger_of b)%list.
+Proof. intros. apply map_app. Qed.
+
+Lemma step_spec_step : forall h o h' ok,
+  step h o = Some (h', ok) -> spec_step (ledger_of h) o = Some (ledger_of h').
+Proof.
+  intros h o h' ok H. destruct o as [c vals fails|f c vals fails|v fails].
+  - simpl in H. destruct h; [|discriminate]. destruct (render c vals); [|discriminate].
+    inversion H; subst. simpl. destruct fails; reflexivity.
+  - destruct (upgrade_stores _ _ _ _ _ _ _ H) as (n & cur & d & r & Hc & _ & -> & Hcfg & _ & _ & Hst & _).
+    destruct (current_get _ _ _ Hc) as [G I].
+    simpl spec_step. rewrite ledger_statuses, I, ledger_get, G. simpl.
+    rewrite ledger_app. simpl. rewrite Hcfg, Hst.
+    destruct fails; [reflexivity | now rewrite ledger_supersede_at].
+  - destruct (rollback_stores _ _ _ _ _ H) as (t & r & G & -> & Hcfg & _ & _ & Hst & _).
+    simpl spec_step. rewrite ledger_length, ledger_get, G. simpl.
+    rewrite ledger_app. simpl. rewrite Hcfg, Hst.
+    destruct fails; [reflexivity | now rewrite ledger_supersede_deployed].
 Qed.
 
 (* C13_chain *)
 Theorem chain_spec : forall ops h h' oks,
   run_chain h ops = (h', oks) ->
-  map rconfig h' = spec_chain (map rconfig h) ops oks
+  ledger_of h' = spec_chain (ledger_of h) ops (stored_flags h ops)
   /\ List.length oks = List.length ops.
 Proof.
   induction ops as [|o ops IH]; intros h h' oks H; simpl in H.
   - inversion H; subst. split; reflexivity.
-  - destruct (step h o) as [r|] eqn:S.
-    + destruct (run_chain (h ++ [r]) ops) as [h2 oks2] eqn:R. inversion H; subst.
+  - simpl stored_flags. destruct (step h o) as [[h1 ok]|] eqn:S.
+    + destruct (run_chain h1 ops) as [h2 oks2] eqn:R. inversion H; subst.
       destruct (IH _ _ _ R) as [E L]. simpl.
-      rewrite (step_spec_step _ _ _ S). rewrite E, map_app. simpl. split; [reflexivity | now rewrite L].
+      rewrite (step_spec_step _ _ _ _ S). split; [assumption | now rewrite L].
     + destruct (run_chain h ops) as [h2 oks2] eqn:R. inversion H; subst.
       destruct (IH _ _ _ R) as [E L]. simpl. split; [assumption | now rewrite L].
 Qed.
@@ -191,10 +333,9 @@ Theorem chain_consistent : forall ops h h' oks,
 Proof.
   induction ops as [|o ops IH]; intros h h' oks Hh H; simpl in H.
   - inversion H; subst. assumption.
-  - destruct (step h o) as [r|] eqn:S.
-    + destruct (run_chain (h ++ [r]) ops) as [h2 oks2] eqn:R. inversion H; subst.
-      eapply IH; [|exact R]. apply Forall_app. split; [assumption|].
-      constructor; [|constructor]. eapply step_consistent; eauto.
+  - destruct (step h o) as [[h1 ok]|] eqn:S.
+    + destruct (run_chain h1 ops) as [h2 oks2] eqn:R. inversion H; subst.
+      eapply IH; [|exact R]. eapply step_consistent; eauto.
     + destruct (run_chain h ops) as [h2 oks2] eqn:R. inversion H; subst. eapply IH; eauto.
 Qed.
 
@@ -224,23 +365,25 @@ Local Open Scope string_scope.
 Definition ex_c1 := mkChart "c" [("a", VNum 1%Z); ("t", VMap [("x", VStr "d")])] [].
 Definition ex_c2 := mkChart "c" [("a", VNum 2%Z); ("m", VStr "new")] [].
 Definition ex_ops : list op :=
-  [ OInstall ex_c1 [("a", VNum 10%Z); ("u", VStr "keep")];
-    OUpgrade (mkFlags false true false) ex_c2 [("t", VMap [("y", VStr "u2")]); ("u", VNull)];
-    OUpgrade (mkFlags false false false) ex_c2 [];
-    ORollback 1;
-    ORollback 9;
-    OUpgrade (mkFlags true false false) ex_c1 [] ].
+  [ OInstall ex_c1 [("a", VNum 10%Z); ("u", VStr "keep")] false;
+    OUpgrade (mkFlags false false false) ex_c2 [("a", VNum 99%Z); ("bad", VStr "x")] true;     (* fails: stored as failed *)
+    OUpgrade (mkFlags false true false) ex_c2 [("t", VMap [("y", VStr "u2")]); ("u", VNull)] false;  (* carries forward from 1, not 2 *)
+    OUpgrade (mkFlags false false false) ex_c2 [] false;
+    ORollback 1 false;
+    ORollback 9 false;
+    OUpgrade (mkFlags true false false) ex_c1 [] false ].
 
 Example ex_chain :
   let '(h, oks) := run_chain [] ex_ops in
-  oks = [true; true; true; true; false; true]
-  /\ map rconfig h =
-     [ [("a", VNum 10%Z); ("u", VStr "keep")];
-       [("t", VMap [("y", VStr "u2")]); ("a", VNum 10%Z)];
-       [("t", VMap [("y", VStr "u2")]); ("a", VNum 10%Z)];
-       [("a", VNum 10%Z); ("u", VStr "keep")];
-       [] ]
-  /\ option_map rrendered (get_rev h 2)
+  oks = [true; false; true; true; true; false; true]
+  /\ ledger_of h =
+     [ ([("a", VNum 10%Z); ("u", VStr "keep")], SSuperseded);
+       ([("a", VNum 99%Z); ("bad", VStr "x")], SFailed);
+       ([("t", VMap [("y", VStr "u2")]); ("a", VNum 10%Z)], SSuperseded);
+       ([("t", VMap [("y", VStr "u2")]); ("a", VNum 10%Z)], SSuperseded);
+       ([("a", VNum 10%Z); ("u", VStr "keep")], SSuperseded);
+       ([], SDeployed) ]
+  /\ option_map rrendered (get_rev h 3)
      = Some [("t", VMap [("y", VStr "u2"); ("x", VStr "d")]); ("a", VNum 10%Z); ("u", VStr "keep")].
 Proof. vm_compute. repeat split; reflexivity. Qed.
 
@@ -258,7 +401,7 @@ Proof. repeat split; reflexivity. Qed.
 
 Example ex_consistent :
   Forall consistent (fst (run_chain [] ex_ops))
-  /\ List.length (fst (run_chain [] ex_ops)) = 5.
+  /\ List.length (fst (run_chain [] ex_ops)) = 6.
 Proof.
   split; [|reflexivity].
   destruct (run_chain [] ex_ops) as [h oks] eqn:E. simpl fst.
